@@ -32,7 +32,7 @@ LEVEL_NOTE = ('pydicom is trusted to read the stored Part-10 file back; PDUs mix
 RULE = ('case = (message class, data length, fragment sizes, composition into PDUs, reception mode); distinct = same '
         'tuple; non-trivial = at least two fragments or file-backed reception')
 ASSUMPTIONS = ['fragment streams are well-formed as in C06 (command fragments first, one last fragment each)']
-REQUIRED = ['oracle.hundreds-of-command-fragments', 'oracle.completion-exact', 'oracle.message-content', 'oracle.file-backed', 'oracle.via-provider',
+REQUIRED = ['oracle.message-across-release-request', 'oracle.hundreds-of-command-fragments', 'oracle.completion-exact', 'oracle.message-content', 'oracle.file-backed', 'oracle.via-provider',
             'oracle.consecutive-messages']
 
 MAXN = {'quick': 7, 'thorough': 11}
@@ -106,7 +106,7 @@ def run_shard(spec, tier, seed):
                                            'data': False, 'nfrag': nfrag, 'comp': comp, 'seed': seed,
                                            'source': 'lib', 'long': ntags}, tmpdir)
         else:
-            for state in ('Sta6', 'Sta7'):
+            for state in ('Sta6', 'Sta7', 'Sta6>7'):
                 for name in msgs.CLASS_NAMES:
                     for nfrag in (1, 2, 3, 5):
                         for comp in R.compositions(nfrag):
@@ -308,6 +308,11 @@ def check_message(res, case, where, msg, pc_id, name, command, data, ctx):
     # the group length may be recomputed; every other element must be identical
     want.pop(R.TAG_GROUP_LENGTH, None)
     got.pop(R.TAG_GROUP_LENGTH, None)
+    # Command Data Set Type says "present" with any value but 0101H: a library that stores the
+    # canonical 0001H for a received 0000H / 0102H has kept its meaning
+    for d in (want, got):
+        if R.TAG_DATA_SET_TYPE in d:
+            d[R.TAG_DATA_SET_TYPE] = 'absent' if d[R.TAG_DATA_SET_TYPE] == 0x0101 else 'present'
     if want != got:
         diff = [t for t in set(want) | set(got) if want.get(t) != got.get(t)]
         res.violation('command-set-differs', 'C07.content', '%s: command elements differ: %r' % (
@@ -367,14 +372,46 @@ def check_message(res, case, where, msg, pc_id, name, command, data, ctx):
             m = None
 
 
+def across_release(res, case, where, raws, name, command, data, ctx, role, prefix):
+    for cut in range(1, len(raws)):
+        script, _ = c05.build_script(role, prefix)
+        for raw in raws[:cut]:
+            script.append(('bytes', raw))
+        script.append(('user', F.user_primitive('uRELRQ')[0]))
+        for raw in raws[cut:]:
+            script.append(('bytes', raw))
+        sim = simnet.Sim(role, script)
+        sim.run()
+        if sim.outcome != 'end-of-script':
+            res.violation('provider-run-failed', 'C07.provider', '%s, release requested after PDU %d: run() '
+                          '%s %s' % (where, cut, sim.outcome, sim.error), case)
+            return
+        items = [o for o in sim.indication_objs if isinstance(o, tuple)]
+        if len(items) != 1 or sim.state() + 1 != 7:
+            res.violation('message-lost-across-release-request', 'C07.provider',
+                          '%s: release requested after PDU %d of %d: %d message(s) delivered, state Sta%d, '
+                          'indications %r' % (where, cut, len(raws), len(items), sim.state() + 1,
+                                              [i[0] for i in sim.indications]), case)
+            return
+        check_message(res, dict(case, kind='memory'), where + ' across a release request', items[0][0],
+                      items[0][1], name, command, data, ctx)
+
+
 def via_provider(res, case, where, raws, complete_at, name, command, data, ctx):
     """The same stream through the whole provider loop in Sta6 or Sta7."""
-    role, prefix = ('acceptor', ['pRQ', 'uAC']) if case['state'] == 'Sta6' else \
+    role, prefix = ('acceptor', ['pRQ', 'uAC']) if case['state'] in ('Sta6', 'Sta6>7') else \
         ('requestor', ['pAC', 'uRELRQ'])
     script, _ = c05.build_script(role, prefix)
     base = len(script)
     for raw in raws:
         script.append(('bytes', raw))
+    if case['state'] == 'Sta6>7':
+        # the local user asks for release while the message is half received: its remainder
+        # arrives in Sta7 and still completes the message
+        if len(raws) < 2:
+            return
+        res.count('oracle.message-across-release-request')
+        return across_release(res, case, where, raws, name, command, data, ctx, role, prefix)
     sim = simnet.Sim(role, script)
     sim.run()
     res.count('oracle.via-provider')
